@@ -207,6 +207,20 @@ class PurityMachine(RuleBasedStateMachine):
         self.pool.append(("diagram", spec, ap))
         self._apply(ap, "diagram", spec, which, "new")
 
+    @rule(pair=st.sampled_from([("q", "q.a.y"), ("q.a", "q.a.y"), ("q.ab", "q.ab.x"), ("q.c", "q.c.k"), ("q", "q.b.z"), ("q.b", "q.b.z"),
+                                ("q", "q.c.k")]),
+          extra=st.lists(st.sampled_from(ALLN), max_size=1), d=st.sampled_from(["import", "imported"]),
+          kind=st.sampled_from(RS.KINDS), first=st.integers(0, 1))
+    def alias_rule_on_both_architectures(self, pair, extra, d, kind, first):
+        """'anything' alias over a module and a sub module that exists in only one of the two architectures, applied to both."""
+        names = list(dict.fromkeys(list(pair) + extra))
+        spec = {"verb": "should_not", "dir": d, "exc": False, "anything": True,
+                "subj": {"kind": kind, "names": names, "as_str": False}, "obj": None}
+        ap = make_applier("rule", spec)
+        self.pool.append(("rule", spec, ap))
+        self._apply(ap, "rule", spec, first, "new")
+        self._apply(ap, "rule", spec, 1 - first, "reapply")
+
     @precondition(lambda self: len(self.pool) > 0)
     @rule(idx=st.integers(0, 10 ** 6), which=st.integers(0, 1))
     def reapply(self, idx, which):
@@ -309,7 +323,19 @@ def check_order_case(spec: dict) -> dict:
             if base[0] != other[0] or (base[0] == "ok" and base[1] != other[1]):
                 viols.append({"sig": "C15/scan-depends-on-directory-or-exclusion-order", "key": {},
                               "detail": f"iterdir permutation {ps}: {other[:2] if other[0] != 'ok' else sorted(other[1][1])} vs sorted order {base[:2] if base[0] != 'ok' else sorted(base[1][1])}"})
-    return {"violations": viols, "nontrivial": len(spec["dirs"]) >= 2, "labels": ["scan-order", f"globs={len(spec.get('globs', []))}"]}
+        # regex exclusion tuples (groups, back-references): every listing order must give the same architecture
+        import re as _re
+        regs = [r.replace("{BASE}", _re.escape(pr.path())) for r in spec.get("regexes", [])]
+        if len(regs) >= 2:
+            first = scan_outcome(pr.path(), exclusions=(), regex_exclusions=tuple(regs))
+            for ps in spec["perm_seeds"]:
+                r2 = sorted(regs, key=lambda g: hashlib.sha1(f"{ps}/{g}".encode()).hexdigest())
+                other = scan_outcome(pr.path(), exclusions=(), regex_exclusions=tuple(r2))
+                if first[0] != other[0] or (first[0] == "ok" and first[1] != other[1]):
+                    viols.append({"sig": "C15/scan-depends-on-regex-exclusion-order", "key": {},
+                                  "detail": f"regex_exclusions {regs} vs {r2}: {first[:2] if first[0] != 'ok' else sorted(first[1][0])} vs {other[:2] if other[0] != 'ok' else sorted(other[1][0])}"})
+    return {"violations": viols, "nontrivial": len(spec["dirs"]) >= 2,
+            "labels": ["scan-order", f"globs={len(spec.get('globs', []))}", f"regexes={len(spec.get('regexes', []))}"]}
 
 
 @st.composite
